@@ -449,14 +449,44 @@ const LITERAL_CASES: &[&str] = &[
 ];
 
 fn gen_literals(part: usize, parts: usize, _th: bool, emit: &mut dyn FnMut(&str)) {
-    for (i, l) in LITERAL_CASES.iter().enumerate() {
-        if i % parts == part {
+    let mut idx = 0usize;
+    let mut out = |l: &str, emit: &mut dyn FnMut(&str)| {
+        idx += 1;
+        if idx % parts == part {
             emit(l);
+        }
+    };
+    for l in LITERAL_CASES.iter() {
+        out(l, emit);
+    }
+    // systematic spellings: 1..9 mantissa digits x position of the point x exponent marker and
+    // sign x exponent size x type suffix
+    let all = "123456789";
+    for nd in 1..=9usize {
+        let d = &all[..nd];
+        let mut mantissas = vec![d.to_string(), format!(".{}", d), format!("{}.", d)];
+        if nd > 1 {
+            mantissas.push(format!("{}.{}", &d[..1], &d[1..]));
+            mantissas.push(format!("{}.{}", &d[..nd - 1], &d[nd - 1..]));
+        }
+        for m in &mantissas {
+            for ex in ["", "E", "E+", "E-", "D", "D+", "D-", "e-", "d+"] {
+                let sizes: &[&str] = if ex.is_empty() { &[""] } else { &["0", "2", "10", "30"] };
+                for sz in sizes {
+                    for suf in ["", "!", "#", "%"] {
+                        out(&format!("{}{}{}{}", m, ex, sz, suf), emit);
+                    }
+                }
+            }
         }
     }
 }
 
 fn check_literal(item: &str, _ctx: &Ctx) -> Outcome {
+    if literal(item).is_none() {
+        // E with more than 7 digits, % on a fraction, ...: the typing rules do not cover it
+        return Outcome::discard("spelling not covered by the typing rules");
+    }
     let e = E::Lit(item.to_string());
     match check_tree(&[], &e, None) {
         Ok(_) => {
